@@ -127,8 +127,30 @@ def handle : List String → Option String
         let links ← if ch == "-" then some [] else (ch.splitOn ",").mapM parseLink
         some ⟨x, y, sg == "1", links⟩
       | _ => none
+    -- records of 9 fields carry the operand and result descriptions: `shape;type;scales;zero points;qdim;c|d` joined by `,`
+    let ints (t : String) : Option (List Int) := if t == "" then some [] else (t.splitOn "/").mapM String.toInt?
+    let nats (t : String) : Option (List Nat) := if t == "" then some [] else (t.splitOn "/").mapM parseNat?
+    let parseDesc (t : String) : Option (Option Spec.TensorDesc) :=
+      if t == "~" then some none else
+      match t.splitOn ";" with
+      | [sh, ty, sc, zp, qd, k] => do
+        let sh ← ints sh
+        let ty ← parseNat? ty
+        let sc ← nats sc
+        let zp ← ints zp
+        let qd ← qd.toInt?
+        some (some ⟨sh, ty, sc, zp, qd, k == "c"⟩)
+      | _ => none
+    let parseDescs (t : String) : Option (List (Option Spec.TensorDesc)) := if t == "-" then some [] else (t.splitOn ",").mapM parseDesc
     match als.mapM parseAlias with
-    | some l => some (boolStr (Spec.unchangedOnCpu (a.splitOn "|") (b.splitOn "|") l))
+    | some l =>
+      match a.splitOn "|", b.splitOn "|" with
+      | [c, cc, ot, f, co, i, o, si, so], [c', cc', ot', f', co', i', o', si', so'] =>
+        match parseDescs si, parseDescs so, parseDescs si', parseDescs so' with
+        | some si, some so, some si', some so' =>
+          some (boolStr (Spec.unchangedOnCpuDesc [c, cc, ot, f, co, i, o] [c', cc', ot', f', co', i', o'] l si so si' so'))
+        | _, _, _, _ => some "err:parse"
+      | ra, rb => some (boolStr (Spec.unchangedOnCpu ra rb l))
     | none => some "err:parse"
   | "c16judge" :: pred :: obs :: _ => some (boolStr (Spec.placementOk pred obs))
   | _ => none
